@@ -36,7 +36,7 @@ class Behaviour(object):
 
 class Contract(object):
     def __init__(self, target, params=None, behaviours=None, loops=None, inline=False, result=None,
-                 fields=None, locals=None, note="", tier=1, trusted=False, dispatch=None, effect_free=False, abstract_calls=None, free=None, self_methods=None, self_name="self", solver_pruning=False, append_hints=None, getattr_assume=None, merge_iteration=False, dynamic_errors=False, **default_behaviour):
+                 fields=None, locals=None, note="", tier=1, trusted=False, dispatch=None, effect_free=False, abstract_calls=None, free=None, self_methods=None, self_name="self", solver_pruning=False, append_hints=None, getattr_assume=None, merge_iteration=False, dynamic_errors=False, getattr_models=None, **default_behaviour):
         self.dynamic_errors = dynamic_errors        # operands of the wrong dynamic type raise (TypeError) / run user code (Op event) instead of being excluded by an obligation
         self.merge_iteration = merge_iteration      # iterate a dynamic value on ONE path (items defined by cases) instead of one path per kind
         self.getattr_assume = dict(getattr_assume or {})   # attribute name -> (clause over obj/result, reason): an assumed fact about reading that attribute
@@ -48,6 +48,7 @@ class Contract(object):
         # call expressions (matched on the source text of the callee expression) replaced by a named library model:
         # {'self._HANDLERS[handler]': 'handler_run', 'logger.debug': 'log'}
         self.abstract_calls = dict(abstract_calls or {})
+        self.getattr_models = dict(getattr_models or {})     # source text of an attribute read (a property) -> library model
         self.effect_free = effect_free              # no ghost event on any exit (proved); call sites then record no event
         self.dispatch = list(dispatch or [])        # [(condition expr | None, behaviour name)]: behaviour used at a call site
         self.target = target                        # "rpyc/core/brine.py::_dump_bytes"
